@@ -29,6 +29,10 @@ type zzMK struct {
 	Keys    map[string]zzKey // by "branch/index"
 	NextExt uint32
 	NextInt uint32
+	// Tainted: imported from a tampered file the importer accepted (known finding);
+	// Regressed: imported from an export older than the latest issuance
+	Tainted   bool
+	Regressed bool
 }
 
 func (k *zzMK) clone() *zzMK {
